@@ -625,6 +625,11 @@ def apply_contract(ex, st, fi, c, env, node):
         o = z3.Int(f"o!{next(_uid)}")
         st.assume(smt.forall([o], z3.Implies(a_old[o], a_new[o]), patterns=[a_old[o]]))
         st.assume(smt.forall([o], z3.Implies(a_old[o], a_new[o]), patterns=[a_new[o]]))
+        allowed = alloc_classes(c, star)
+        if allowed is not None:
+            # only objects of the declared classes are created (containers by default)
+            okcls = z3.Or([cls_of(o) == ex.cid(n) for n in allowed])
+            st.assume(smt.forall([o], z3.Implies(z3.And(a_new[o], z3.Not(a_old[o])), okcls), patterns=[a_new[o]]))
     # result
     result = None
     if c.returns is not None:
@@ -636,19 +641,35 @@ def apply_contract(ex, st, fi, c, env, node):
         result = SV("val", Val.none, T("none"))
     outs = []
     # exceptional exits
+    # (name, cond): MAY raise `name` when cond held in the pre-state; "name!" : DOES raise then
     for excname, cond in c.raises:
         s2 = st.copy()
         s2.heap = dict(old_heap)
         g = spec_eval(ex, s2, env, cond)
         if ex.noprune or ex.feasible(s2, g):
             s2.assume(g)
-            outs.append((s2, Exc(excname, node)))
-        st.assume(z3.Not(spec_eval_in(ex, st, old_heap, env, cond)))
+            outs.append((s2, Exc(excname.rstrip("!"), node)))
+        if excname.endswith("!"):
+            st.assume(z3.Not(spec_eval_in(ex, st, old_heap, env, cond)))
     for lab, text in c.ensures:
         g = spec_eval(ex, st, env, text, old=old, result=result)
         st.assume(g)
     outs.append((st, result))
     return outs
+
+
+CONTAINERS = ["LIST", "DICT", "GEN"]
+
+
+def alloc_classes(c, star=False):
+    """classes of the objects a call may allocate: None = anything"""
+    if star or c.allocates == "any":
+        return None
+    if c.allocates is True:
+        return CONTAINERS
+    if isinstance(c.allocates, (list, tuple)):
+        return CONTAINERS + list(c.allocates)
+    return []
 
 
 def spec_eval_in(ex, st, heap, env, text):
